@@ -297,8 +297,12 @@ class C18(Prop):
     id = "C18"
     title = "Runtime errors are reported at the right file and line with a correct trace"
     lean_modules = ["NV.C18.Props", "NV.C18.Witness"]
-    theorems = []
-    witness_theorems = []
+    theorems = ["NV.C18.line_roundtrip_raw", "NV.C18.line_roundtrip", "NV.C18.long_statement_ok",
+                "NV.C18.file_roundtrip", "NV.C18.file_roundtrip_partial", "NV.C18.trace_order",
+                "NV.C18.runEms_li", "NV.C18.translateAbs_at"]
+    witness_theorems = ["NV.C18.file_roundtrip_Full_false", "NV.C18.line_roundtrip_Full_false",
+                        "NV.C18.reinclude_wrong", "NV.C18.wide_wrong", "NV.C18.signed_short_wrong",
+                        "NV.C18.init_block_ignored", "NV.C18.init_replay"]
     consts = [("aProgram", "A_PROGRAM"), ("aInitializer", "A_INITIALIZER"),
               ("frameFunction", "FRAME_FUNCTION"), ("frameFunp", "FRAME_FUNP"), ("frameCatch", "FRAME_CATCH"),
               ("frameFake", "FRAME_FAKE"), ("frameMask", "FRAME_MASK"),
@@ -306,17 +310,38 @@ class C18(Prop):
               ("progSizeBits", "8*sizeof(((program_t*)0)->program_size)"),
               ("nodeLineBits", "8*sizeof(((parse_node_t*)0)->line)")]
     const_headers = ["src/interpret.h", "lpc/program.h", "lpc/compiler.h", "lpc/program/parse_trees.h"]
-    quick_n = 160
-    thorough_n = 1500
+    quick_n = 500
+    thorough_n = 5000
     search_n = 300
     design_ref = "5/C18"
     technique = ("Lean 4 proof (encoder/decoder round trip by induction over emission sequences and include layouts, "
                  "control-stack simulation) + translator-generated constants + model/implementation correspondence on "
                  "dumped tables, compiler events and the control stack")
-    level_text = ""
-    level_note = ""
-    rule = ""
-    not_covered = []
+    level_text = ("Lean 4 theorems about an executable model of the line-number machinery (switch_to_line run encoder, "
+                  "save_file_info / #include push and pop, find_line scan, translate_absolute_line, push/pop_control_stack, "
+                  "get_svalue_trace): line_roundtrip and long_statement_ok for all emission sequences and offsets, "
+                  "file_roundtrip for all include layouts without a repeated file, trace_order for all call/return "
+                  "sequences; tied to the C code on every run: the model encoder replays the compiler's hook events and "
+                  "must reproduce the real tables byte for byte, the model decoder must agree with the real "
+                  "get_line_number on every code offset of every dumped program, the model trace assembly must agree "
+                  "with what the master's error_handler receives; the specification oracle compares every report with "
+                  "the generator's record of where the failing statement is")
+    level_note = ("trusted: Lean kernel; extract.py; the correspondence harness (differential, generated programs only); "
+                  "proved with side conditions: absolute lines < 2^16 (witness beyond, finding C18-F3), no header "
+                  "included twice (witness, finding C18-F4); which line the code generator attributes to a parse node "
+                  "is compared, not proved; code of global variable initialisers has no line info (finding C18-F1)")
+    rule = ("cases = corpus + known-finding inputs + boundary list (statement code of exactly 200..766 bytes, failing "
+            "statement in every slot of a 3 level include tree, 253..64000 lines in front, inherited program, function "
+            "literal, multi-line and long statements, saved binary) + seeded random program families (1-4 child "
+            "functions, 0-3 inherited functions, include depth 0-3 each, call styles return/assign/function "
+            "literal/catch/multi-line, 8 failing statement kinds, paddings of 0..63000 blank/comment lines and 0..200 "
+            "filler statements, #pragma save_binary reload); a case is non-trivial when its trace has >= 2 lines; "
+            "distinct = distinct canonical implementation trace")
+    not_covered = ["which source line the parser attributes to a parse node (LALR look-ahead may move it inside the "
+                   "statement; the oracle accepts any line of the statement's extent)",
+                   "dump_trace()'s textual log output (same get_line_number calls; only the mapping handed to the master is compared)",
+                   "programs larger than 65535 bytes / line tables larger than 64 KB (program_size, file_info[0] are 16 bit)",
+                   "MAX_INCLUDE_DEPTH overflow and GLOBAL_INCLUDE_FILE"]
 
     def prepare(self, ctx):
         self.exe = E.compile_harness("c18", [os.path.join(E.VERIF, "harness/c18/c18.c")])
